@@ -136,7 +136,7 @@ Section Checker.
         | MReduceContent | MReduceDepth _ => one (fun s _ => Some (handle_ao (sa s - so s) (so s) e))
         | MUndoRows | MUndoInventory => one (fun _ f => sub f (epop 1 e))
         | MUnScan => Some (handle_ao 1 1 e)
-        | MBothImpl reused k =>
+        | MBothImpl reused k | MUnBothImpl reused k =>
             one (fun s _ => Some (handle_sig (Sig ((sa s - reused) * k + reused) (k * so s) (k * sua s) (k * suo s)) e))
         | MOther _ fixed => match fixed with Some s => Some (handle_sig s e) | None => None end
         end
